@@ -498,6 +498,11 @@ inline lib::Payload buildPayload(const PacketRecipe& r)
 inline void fillPacket(lib::Packet& p, const PacketRecipe& r, uint8_t version)
 {
     p.setPayload(buildPayload(r));
+    // the packet's own frame-level members are set to values that differ from any encoder configuration: an encoder must
+    // take device id, stream id and counter from its own state, never from the packets
+    p.setDeviceId(static_cast<uint16_t>(mix(r.seed, 77) | 0x0100));
+    p.setStreamId(static_cast<uint8_t>(mix(r.seed, 78) | 0x40));
+    p.setSequenceCounter(static_cast<uint16_t>(mix(r.seed, 79)));
     p.setVersion(version);
     p.setTimestamp(r.ts);
     p.setInterfaceId(r.ifId);
